@@ -38,7 +38,7 @@ LIBS = ['eqpt_config.json', 'eqpt_config_openroadm_ver4.json', 'eqpt_config_open
 
 
 def plan(tier, seed):
-    n = 400 if tier == "quick" else 40000
+    n = 4000 if tier == "quick" else 40000
     kinds = ['cross', 'cross', 'cross', 'sweep', 'band', 'cross', 'cross', 'synth']
     return [{'idx': i, 'kind': kinds[i % len(kinds)]} for i in range(n)]
 
